@@ -150,7 +150,15 @@ def free_search(chk, stats, n_sched):
     for k in range(n_sched):
         sels, owns = CONFIGS[k % len(CONFIGS)]
         i, j = rng.randrange(0, 40), rng.randrange(0, 40)
-        schedule = [0] * i + [1] * j + [0] * 60 + [1] * 60
+        if k % 2 == 0:
+            schedule = [0] * i + [1] * j + [0] * 60 + [1] * 60
+            sched_text = "thread 0: %d stops, thread 1: %d stops, then both to the end" % (i, j)
+        else:
+            # thread 1 gets as far as its call (or further), thread 0 stops somewhere in the middle of its own
+            # activation / deactivation, thread 1 makes a few more steps
+            m = rng.randrange(1, 4)
+            schedule = [1] * j + [0] * i + [1] * m + [0] * 60 + [1] * 60
+            sched_text = "thread 1: %d stops, thread 0: %d stops, thread 1: %d more, then both to the end" % (j, i, m)
         mod = pyprog.make_module(SRC, "verif_c08_free")
         orig = mod.f.__code__
         probes = [ptera.Probe(s, env=mod.__dict__) for s in sels]
@@ -160,6 +168,7 @@ def free_search(chk, stats, n_sched):
 
         def worker(tid, ctrl):
             probes[tid].__enter__()
+            ctrl.arrive(tid, ("call", 0))          # a scheduling point between activation and call
             rets[tid] = mod.f(args[tid])
             probes[tid].__exit__(None, None, None)
         try:
@@ -169,7 +178,7 @@ def free_search(chk, stats, n_sched):
             continue
         except Exception as e:
             chk.violation("oracle", "a thread raised %s: %s under a forced interleaving (sequentially nothing is raised)" % (
-                type(e).__name__, str(e)[:160]), {"selectors": sels, "schedule": "thread 0: %d stops, thread 1: %d stops, then both to the end" % (i, j)})
+                type(e).__name__, str(e)[:160]), {"selectors": sels, "schedule": sched_text})
             continue
         finally:
             pass
@@ -180,11 +189,11 @@ def free_search(chk, stats, n_sched):
             if list(outs[tid]) != expected_events(sels[tid], args[tid]) or rets[tid] != (args[tid] + 1) * 2:
                 chk.violation("oracle", "thread %d (probe %r) observed %r and got %r; sequentially it observes %r and gets %r" % (
                     tid, sels[tid], list(outs[tid]), rets[tid], expected_events(sels[tid], args[tid]), (args[tid] + 1) * 2),
-                    {"selectors": sels, "schedule": "thread 0: %d stops, thread 1: %d stops, then both to the end" % (i, j)})
+                    {"selectors": sels, "schedule": sched_text})
         if not final["orig"] or final["count"] != 0 or final["caps"]:
             chk.violation("oracle", "all threads finished but f: original code=%s instrument_count=%s captures=%s" % (
                 final["orig"], final["count"], final["caps"]),
-                {"selectors": sels, "schedule": "thread 0: %d stops, thread 1: %d stops, then both to the end" % (i, j)})
+                {"selectors": sels, "schedule": sched_text})
         pyprog.drop_module(mod)
 
 
